@@ -777,7 +777,11 @@ impl<'tcx> Cx<'tcx> {
         }
         let kind = tcx.def_kind(did);
         // const fns / consts are skipped unless they are functions
-        let body: &Body<'tcx> = tcx.optimized_mir(did);
+        let body: &Body<'tcx> = if matches!(kind, DefKind::Const { .. } | DefKind::AssocConst { .. }) {
+            tcx.mir_for_ctfe(did)
+        } else {
+            tcx.optimized_mir(did)
+        };
         let (file, line) = self.loc(body.span);
         let mut o = self.fn_ident(did);
         o = o.s("k", "fn").s("crate", &self.crate_name.clone());
@@ -882,7 +886,18 @@ impl rustc_driver::Callbacks for Cb {
         for ldid in tcx.mir_keys(()).iter() {
             let did = ldid.to_def_id();
             let kind = tcx.def_kind(did);
-            if !matches!(kind, DefKind::Fn | DefKind::AssocFn | DefKind::Closure) {
+            // bodies of generic (associated) constants: their value cannot be evaluated here, so the initialiser is
+            // kept as a body and resolved symbolically by the analyses (e.g. `const HDR: usize = size_of::<H>()`)
+            let generic_const = match kind {
+                DefKind::Const { .. } => tcx.generics_of(did).count() > 0,
+                DefKind::AssocConst { .. } => {
+                    use rustc_middle::ty::TypeVisitableExt;
+                    tcx.associated_item(did).defaultness(tcx).has_value()
+                        && (tcx.generics_of(did).count() > 0 || tcx.type_of(did).instantiate_identity().skip_norm_wip().has_non_region_param())
+                }
+                _ => false,
+            };
+            if !matches!(kind, DefKind::Fn | DefKind::AssocFn | DefKind::Closure) && !generic_const {
                 continue;
             }
             if let Some(r) = cx.fn_record(did) {
